@@ -4,6 +4,8 @@ set -e
 cd "$(dirname "$0")"
 export CARGO_NET_OFFLINE=true
 ( cd harness && cargo build --release --offline -p mc -p send_sync_probe 2>&1 | tail -2 )
+# the same harness without overflow checks / debug assertions (second pass of C01-C04, C12)
+( cd harness && cargo build --profile plain --offline -p mc 2>&1 | tail -1 )
 python3 tools/c18.py build
 # reference-guided rare-event search (depends only on the reference models): cache it for the seeds
 # the checks are usually run with, so that the quick tier does not pay for it
